@@ -190,6 +190,10 @@ func visit(f *ast.File, fset *token.FileSet, ops string, site func(desc string, 
 						continue
 					}
 
+					if commutativeAt(x, i) {
+						continue // operands of a commutative operation: an equivalent mutant by construction
+					}
+
 					site(fmt.Sprintf("swap call arguments %d and %d", i, i+1), ln(x), func() { x.Args[i], x.Args[i+1] = x.Args[i+1], x.Args[i] })
 				}
 			}
@@ -214,6 +218,27 @@ func visit(f *ast.File, fset *token.FileSet, ops string, site func(desc string, 
 
 		return true
 	})
+}
+
+// commutativeAt reports whether arguments i and i+1 of the call are the two operands of a commutative operation of
+// this code base: z.Multiply(a, b), z.Add(a, b), Equals-style predicates, and the Fiat forms Mul(out, a, b),
+// Add(out, a, b) and bits.Mul64(a, b).
+func commutativeAt(c *ast.CallExpr, i int) bool {
+	name := ""
+
+	switch f := c.Fun.(type) {
+	case *ast.SelectorExpr:
+		name = f.Sel.Name
+	case *ast.Ident:
+		name = f.Name
+	}
+
+	switch name {
+	case "Multiply", "Add", "Mul", "IsEqual", "Mul64":
+		return (len(c.Args) == 2 && i == 0) || (len(c.Args) == 3 && i == 1)
+	}
+
+	return false
 }
 
 func fmtLike(old string, v uint64) string {
